@@ -20,7 +20,8 @@ out.append("Candidates from section 7 that did **not** become findings: F5b is F
            "not to contradict any listed property; F8 (`\\<` does not see the left neighbour on rescans), F11 (`ftruncate` result ignored) and F14 "
            "(8-fold nested global) have no unit that decides them in this round - they are *not* listed as known findings (nothing reports them) and the "
            "clauses they would violate are named as not decided in the level notes. Found during the build round and not in section 7: F20, F21, F22 "
-           "(`:s` without an argument read past the command line - an everyday command), F23 (`:make` with a long expanded target overran a stack buffer), F9 confirmed natively.\n")
+           "(`:s` without an argument read past the command line - an everyday command), F23 (`:make` with a long expanded target overran a stack buffer), "
+           "F24 (`??` after a forward search searched forward), F25 (`:so #` without an alternate buffer crashed the editor), F6 and F9 confirmed natively.\n")
 out.append("### 11.6 Proof units (generated from units.json and the last evidence run)\n")
 ev = {}
 for fn in sorted(os.listdir(os.path.join(V, "evidence"))):
